@@ -3,7 +3,7 @@ from .. import core, ref, vals, pts
 from ..core import hx, lst
 from ..ref import P, L, to32, le
 
-REQUIRED = ['heap:msm', 'heap:rs-msm', 'heap:batchinv', 'heap:batchinv-zero', 'heap:unwind-points', 'heap:unwind-scalars', 'heap:control-vartime', 'drop:signingkey', 'drop:expandedsecretkey',
+REQUIRED = ['heap:msm', 'heap:rs-msm', 'heap:batchinv', 'heap:batchinv-zero', 'heap:unwind-points', 'heap:unwind-scalars', 'heap:inexact-hint', 'drop:unwinding', 'heap:control-vartime', 'drop:signingkey', 'drop:expandedsecretkey',
             'drop:ephemeral', 'drop:reusable', 'drop:static', 'drop:shared', 'drop:boxed', 'zeroize']
 
 
@@ -72,8 +72,8 @@ def heap(ctx, sizes, stats):
                 ctx.add('mem.msm', '#%d' % kind, lst([cs(s) for s in sv]), pt, expect=g.judge(i == 0), cls=[cl, 'n=%d' % n], info='repr')
             # the caller's point / scalar iterator fails part-way and the unwinding is caught: what was already
             # recoded must still be wiped
-            for which, wcl in ((0, 'heap:unwind-points'), (1, 'heap:unwind-scalars')):
-                for at in sorted(set([0, n // 2, n - 1])):
+            for which, wcl in ((0, 'heap:unwind-points'), (1, 'heap:unwind-scalars'), (2, 'heap:inexact-hint')):
+                for at in (sorted(set([0, n // 2, n - 1])) if which < 2 else [0]):
                     g = Group(stats=stats)
                     ctx.block()
                     for i, sv in enumerate(secs):
@@ -158,6 +158,42 @@ def drops(ctx, n, stats):
             k = vals.rb(rng, 32)
             ctx.add('mem.drop', 'shared', boxed, k.hex(), '#1', expect=drop_expect([], [], stats, shared=True),
                     cls=['drop:shared'] + bc, info='repr')
+    # the owner of a boxed secret fails: the unwinding drops the secret and frees the box; what the box holds when it goes
+    # back to the allocator (and, as a cross-check, when the frame returns normally) must not contain the secret
+    def freed_clean(forms):
+        def f(toks):
+            log = toks[1:]
+            hdr = dict(x.split('=') for x in log[0].split(':'))
+            if hdr['overflow'] != '0':
+                return 'HARNESS allocator monitor log overflow'
+            if int(hdr['frees']) < 1:
+                return 'HARNESS allocator monitor observed no free inside the measured region'
+            stats['unwind_drop_frees'] = stats.get('unwind_drop_frees', 0) + int(hdr['frees'])
+            for blk in log[1:]:
+                content = bytes.fromhex(blk.split(':')[2]) if blk.count(':') >= 2 and blk.split(':')[2] else b''
+                aw = windows(content)
+                for s_ in forms:
+                    for i in range(len(s_) - 7):
+                        w = s_[i:i + 8]
+                        if w.count(0) >= 6:
+                            continue
+                        if w in aw:
+                            return 'secret bytes %s are in a heap block freed while its owner %s' % (w.hex(), 'unwound' if toks[0] == 'T' else 'returned')
+            return None
+        return f
+    for _ in range(max(1, n // 2)):
+        for pan in ('T', 'F'):
+            seed = vals.rb(rng, 32)
+            h = vals.sha512(seed)
+            ctx.add('mem.dropunwind', 'signingkey', seed.hex(), pan, expect=freed_clean([seed, h[:32], h[32:], ref.clamp(h[:32])]),
+                    cls=['drop:unwinding', 'drop:signingkey'], info='repr')
+            esk = vals.rb(rng, 64)
+            ctx.add('mem.dropunwind', 'expandedsecretkey', esk.hex(), pan,
+                    expect=freed_clean([esk[:32], esk[32:], ref.clamp(esk[:32]), to32(le(ref.clamp(esk[:32])) % L)]),
+                    cls=['drop:unwinding', 'drop:expandedsecretkey'], info='repr')
+            for ty in ('static', 'reusable'):
+                k = vals.rb(rng, 32)
+                ctx.add('mem.dropunwind', ty, k.hex(), pan, expect=freed_clean([k, ref.clamp(k)]), cls=['drop:unwinding', 'drop:' + ty], info='repr')
     # explicit zeroisation resets scalars to zero and points to the identity
     z = to32(0).hex()
     for _ in range(max(2, n // 2)):
